@@ -169,10 +169,19 @@ def case_list(tier):
                 cases.append((kind, "binary", op, 2, shape))
         for shape in shapes:
             for axis in range(len(shape)):
-                for ind in (0, shape[axis] - 1, [0], [shape[axis] - 1, 0]):
+                n_ax = shape[axis]
+                inds = [0, n_ax - 1, [0], [n_ax - 1, 0], -1, [-1], [-1, 0]]
+                if n_ax >= 2:
+                    inds += [[0, 1], [-2, -1], [1, 1]]  # consecutive runs (also counted from the end), a repeated position
+                for ind in inds:
                     cases.append((kind, "take", "take", 1, shape, axis, ind))
                     if kind == "xarray" and shape[axis] > 1:
                         cases.append((kind, "take", "take", 1, shape, axis, ind, "labelled"))
+    # mixed dtypes: concrete witnesses (values a narrower dtype cannot hold), compared with NumPy on the promoted arrays
+    for kind in ("numpy", "xarray"):
+        for d0, d1 in DTYPE_PAIRS:
+            for op in REDUCTIONS + ["stack", "concat", "add", "subtract", "multiply", "divide"]:
+                cases.append((kind, "dtype", op, 2, (2,), (d0, d1)))
     # batchability: discovered from the code, not from a list
     marked = sorted(n for n in dir(backends.Backend) if getattr(getattr(backends.Backend, n), "batchable", False))
     bk = 4 if tier == "quick" else 5
@@ -190,6 +199,49 @@ def case_list(tier):
                             continue
                         cases.append((kind, "batch", name, k, bshape, tuple(tuple(p) for p in parts), "set"))
     return cases, marked
+
+
+DTYPE_PAIRS = [("int64", "float64"), ("float64", "int64"), ("int8", "int64"), ("float32", "float64"), ("bool", "int64"), ("int64", "int64")]
+
+
+def dtype_witness(dtype, first):
+    if dtype == "bool":
+        return np.array([True, False] if first else [True, True], dtype=bool)
+    if dtype.startswith("float"):
+        return np.array([1.0, 2.0] if first else [0.5, 300.25], dtype=dtype)
+    if dtype == "int8":
+        return np.array([1, 2] if first else [100, -7], dtype=dtype)
+    return np.array([1, 2] if first else [300, -7], dtype=dtype)
+
+
+def run_dtype_case(case):
+    """Concrete execution (no solver): the sub-clause 'any dtype' of C15 is only sampled, on witnesses chosen so that a cast of
+    one argument to another argument's dtype, or a narrower accumulator, changes the value."""
+    kind, _, op, k, shape, (d0, d1) = case
+    a0, a1 = dtype_witness(d0, True), dtype_witness(d1, False)
+    rt = np.result_type(a0.dtype, a1.dtype)
+    p0, p1 = a0.astype(rt), a1.astype(rt)
+    W = [wrap(kind, a0), wrap(kind, a1)]
+    f = getattr(backends, op)
+    with np.errstate(all="ignore"):
+        if op in REDUCTIONS:
+            got = f(*W, **({"skipna": False} if kind == "xarray" else {}))
+            want = getattr(np, op)(np.stack([p0, p1]), axis=0)
+        elif op == "stack":
+            got = f(*W, axis=0) if kind == "numpy" else f(*W, dim="new", axis=0)
+            want = np.stack([p0, p1], axis=0)
+        elif op == "concat":
+            got = f(*W, axis=0) if kind == "numpy" else f(*W, dim=DIMS[0])
+            want = np.concatenate([p0, p1], axis=0)
+        else:
+            got = f(W[0], W[1])
+            want = getattr(np, op)(a0, a1)
+    g = np.asarray(got.data if isinstance(got, xr.DataArray) else got)
+    if g.shape != want.shape:
+        return True, f"shape {g.shape} vs numpy {want.shape}"
+    if not np.allclose(g.astype("float64"), want.astype("float64"), rtol=1e-12, atol=0, equal_nan=True):
+        return True, f"{op}({a0!r}, {a1!r}) = {g!r}, numpy gives {want!r}"
+    return False, "equal"
 
 
 def compositions(k):
@@ -291,6 +343,16 @@ def run_case(case):
     kind, fam, op, k, shape = case[:5]
     names = {f"a{i}": shape for i in range(k)}
     out = {"case": _plain(case), "result": "holds", "paths": 0}
+    if fam == "dtype":
+        try:
+            bad, why = run_dtype_case(case)
+            out["paths"] = 1
+            if bad:
+                out.update(result="violated", why=why, model=None, reproduced=True, replay_msg=why)
+        except Exception as e:
+            out.update(result="error", why=f"{type(e).__name__}: {str(e)[:200]}")
+        out["solver_queries"], out["solver_seconds"], out["wall"] = 0, 0.0, time.perf_counter() - t0
+        return out
     try:
         def once():
             inputs = [E.fresh_array(n, s) for n, s in names.items()]
@@ -350,7 +412,7 @@ class Backends(Harness):
     assumptions = ["exact real arithmetic (rounding is outside the claim)", "sqrt is an uninterpreted function (std compared through congruence)",
                    "a batch of one argument is passed through unchanged, as fluent's _batch_transform does",
                    "xarray reductions are called with skipna=False (object dtype)", "partitions are ordered (contiguous); arbitrary set partitions additionally for the symmetric reductions"]
-    outside = ["dtypes other than exact reals, NaN handling", "the FieldList backend", "more arguments / larger shapes than the bound"]
+    outside = ["machine dtypes: only sampled on fixed mixed-dtype witnesses by concrete execution (family 'dtype'), not decided by the solver; NaN handling", "the FieldList backend", "more arguments / larger shapes than the bound"]
 
     def functions(self):
         return [backends.Backend, b_arrayapi.ArrayAPIBackend, b_arrayapi._xp_multi_args, b_xarray.XArrayBackend, backends.array_module, backends.batchable]
@@ -392,6 +454,9 @@ class Backends(Harness):
 
     def replay(self, rep):
         case = rep["case"]
+        if case[1] == "dtype":
+            bad, why = run_dtype_case((case[0], case[1], case[2], case[3], tuple(case[4]), tuple(case[5])))
+            return bool(bad), rep.get("key", ""), why
         case = [tuple(tuple(p) for p in c) if isinstance(c, list) and c and isinstance(c[0], list) else (tuple(c) if isinstance(c, list) and i == 4 else c) for i, c in enumerate(case)]
         shape = tuple(case[4])
         vals = {}
